@@ -21,12 +21,12 @@ CONFIG = {
     'quick': {'shards': 16, 'budget_s': 300, 'n': 4000,
               'floors': {'evaluations': 8000, 'distinct_nontrivial': 1200, 'cgr.compared': 1400, 'cgr.dynamic-bonds-checked': 1500,
                          'cgr.identical-sides': 150, 'order.permutations': 1500, 'readback.compared': 1400, 'readback.empty-role': 100,
-                         'cgr.renumbered': 1200, 'grouped-texts.compared': 600, 'grouped-texts.non-adjacent-members': 150, 'grouped-texts.with-radicals': 300}},
+                         'cgr.renumbered': 1200, 'cgr.symmetric-pairs': 12, 'grouped-texts.compared': 600, 'grouped-texts.non-adjacent-members': 150, 'grouped-texts.with-radicals': 300}},
     'thorough': {'shards': 16, 'budget_s': 1500, 'n': 150000,
                  'floors': {'evaluations': 200000, 'distinct_nontrivial': 20000, 'cgr.compared': 35000,
                             'cgr.dynamic-bonds-checked': 40000, 'cgr.identical-sides': 3000, 'order.permutations': 40000,
                             'readback.compared': 35000, 'readback.empty-role': 2500, 'cgr.renumbered': 30000,
-                            'grouped-texts.compared': 20000, 'grouped-texts.non-adjacent-members': 5000, 'grouped-texts.with-radicals': 10000}},
+                            'cgr.symmetric-pairs': 12, 'grouped-texts.compared': 20000, 'grouped-texts.non-adjacent-members': 5000, 'grouped-texts.with-radicals': 10000}},
 }
 
 
@@ -380,6 +380,29 @@ def grouped_texts(ctx, rng, n):
                 break
 
 
+# rings whose atoms are all equivalent on one side and alternate on the other: the dynamic bonds differ only in the product-side (or
+# reactant-side) order, nothing else tells the ring atoms apart
+SYMMETRIC_PAIRS = [('C1CCCCC1', 'C1=CC=CC=C1'), ('c1ccccc1', 'C1=CC=CC=C1'), ('C1=CC=CC=C1', 'C1CCCCC1'), ('C1CCCCCCC1', 'C1=CC=CC=CC=C1'), ('C1CCC1', 'C1=CC=C1'),
+                   ('C1CCC2CCCCC2C1', 'C1=CC2=CC=CC=C2C=C1'), ('C1=CC=CC=C1', 'c1ccccc1'), ('C1CCCCC1.C1CCCCC1', 'C1=CC=CC=C1.C1CCCCC1'), ('N1CNCNC1', 'N1=CN=CN=C1'),
+                   ('C1CCCCC1', 'C1=CCC=CC1'), ('C1CC1', 'C1=CC1'), ('C1CCCC1', 'C1=CC=CC1')]
+
+
+def symmetric_pairs(ctx, rng, k):
+    for i, (a, b) in enumerate(SYMMETRIC_PAIRS):
+        if not ctx.mine(i):
+            continue
+        try:
+            r, p = smiles(a), smiles(b)
+            cgr = r ^ p
+            str(cgr)
+        except Exception as e:
+            ctx.violation('compose-raises/%s' % type(e).__name__, '%s >> %s: %r' % (a, b, e), {'src': '%s>>%s' % (a, b)})
+            continue
+        ctx.count('cgr.symmetric-pairs')
+        for _ in range(k):
+            renumbered_cgr(ctx, r, p, cgr, '%s >> %s' % (a, b), rng)
+
+
 def worker(ctx):
     cfg = CONFIG[ctx.tier]
     rng = ctx.rng
@@ -391,6 +414,7 @@ def worker(ctx):
     small = [s for s, _ in G.special()]
     n = cfg['n'] // ctx.nshards
     grouped_texts(ctx, rng, max(60, n // 4))
+    symmetric_pairs(ctx, rng, 12)
     for i in range(n):
         if ctx.out_of_time():
             ctx.note('time budget reached')
